@@ -191,7 +191,7 @@ func (e *Enc) compile(c *SpecCtx, x *Expr) CE {
 		a, b = e.unify(c, a, b)
 		return CE{T: ite(cond, a.T, b.T), Typ: a.Typ}
 	case "forall", "exists":
-		srt, typ := specSort(x.VarType)
+		srt, typ := e.specSortOf(x.VarType)
 		if srt == "" || typ == nil {
 			fail("%s: bad quantifier type %s", c.what, x.VarType)
 		}
@@ -607,13 +607,20 @@ func (e *Enc) compileCallExpr(c *SpecCtx, x *Expr) CE {
 		a := e.compile(c, x.Args[0])
 		k := map[string]string{"isfin": "fin", "isnan": "fnan", "ispinf": "pinf", "isninf": "ninf"}[x.Name]
 		return CE{T: "((_ is " + k + ") " + a.T + ")", Typ: tBool}
+	case "isint": // isint(r): the real r is an integer
+		argn(1)
+		return CE{T: "(is_int " + e.compile(c, x.Args[0]).T + ")", Typ: tBool}
 	case "fval":
 		argn(1)
 		return CE{T: "(fval " + e.compile(c, x.Args[0]).T + ")", Typ: tReal}
+	case "payloadOK": // payloadOK(x): the interface value's integer payload fits its dynamic kind
+		argn(1)
+		a := e.compile(c, x.Args[0])
+		return CE{T: e.ifacePayloadWF(a.T), Typ: tBool}
 	case "kindof": // kindof(x): reflect kind class of the dynamic type: 1 signed int, 2 unsigned int, 3 float
 		argn(1)
 		a := e.compile(c, x.Args[0])
-		e.B.declTop("kindof", "(declare-fun kindof (Int) Int)")
+		e.declKindOf()
 		return CE{T: "(kindof (ity " + a.T + "))", Typ: tMath}
 	case "update": // update(m, k, v): ghost map m with m[k] = v
 		argn(3)
@@ -688,7 +695,7 @@ func (e *Enc) compileCallExpr(c *SpecCtx, x *Expr) CE {
 		for _, a := range x.Args {
 			args = append(args, e.compile(c, a).T)
 		}
-		_, rt := specSort(sf.Ret)
+		_, rt := e.specSortOf(sf.Ret)
 		if len(args) == 0 {
 			return CE{T: "sf." + sf.Name, Typ: rt}
 		}
@@ -705,13 +712,13 @@ func (e *Enc) declSpecFun(sf *SpecFun) {
 	e.specFunsDeclared[sf.Name] = true
 	var ps []string
 	for _, p := range sf.Params {
-		s, _ := specSort(p.Type)
+		s, _ := e.specSortOf(p.Type)
 		if s == "" {
 			fail("specfun %s: bad param type %s", sf.Name, p.Type)
 		}
 		ps = append(ps, s)
 	}
-	rs, _ := specSort(sf.Ret)
+	rs, _ := e.specSortOf(sf.Ret)
 	e.B.declTop("sf."+sf.Name, fmt.Sprintf("(declare-fun sf.%s (%s) %s)", sf.Name, strings.Join(ps, " "), rs))
 	for _, ax := range sf.Axioms {
 		ctx := &SpecCtx{e: e, st: &State{m: map[string]Term{}}, names: map[string]CE{}, what: "axiom of " + sf.Name}
